@@ -110,6 +110,7 @@ func (this *Dataset) SizeInfo(ctx context.Context) (uint64, uint64, error) {
 	wg := &sync.WaitGroup{}
 	errorCh := make(chan error, len(this.partitions))
 	for _, partition := range this.partitions {
+		partition := partition
 		if partition.isOnNode(this.clusterConn.Id()) {
 			atomic.AddUint64(&resultLen, uint64(partition.len()))
 			atomic.AddUint64(&resultBytesSize, partition.bytesSize())
